@@ -56,3 +56,10 @@ func waitQuiesce(grace time.Duration) (int, string) {
 		time.Sleep(2 * time.Millisecond)
 	}
 }
+
+func chrootTo(dir string) error {
+	if err := syscall.Chroot(dir); err != nil {
+		return err
+	}
+	return syscall.Chdir("/")
+}
